@@ -112,6 +112,7 @@ func Load(cfg LoadCfg) (*Prog, error) {
 	if len(cfg.Overlay) > 0 {
 		// mutant loads replace each other: drop descriptions of dead programs
 		descCache = map[ssa.Value]string{}
+		helperIdx = map[*ssa.Function]*helperInfo{}
 	}
 	fset := token.NewFileSet()
 	pcfg := &packages.Config{
@@ -166,6 +167,7 @@ func Load(cfg LoadCfg) (*Prog, error) {
 		for _, sp := range prog.AllPackages() {
 			p.SSAPkgs[sp.Pkg.Path()] = sp
 		}
+		p.indexHelpers()
 	}
 	return p, nil
 }
